@@ -63,7 +63,10 @@ let lays : lay array = [|
   (1, ch 'c', 16); (2, ch 's', 21); (4, ch 'i', 23); (8, ch 'd', 20); (4, ch 'i', 26); (4, ch 'i', 700); (64, ch 'c', 19); (1, ch 'c', 18);
   (16, ch 'c', 2950); (-1, ch 'i', 25); (-1, ch 'i', 1043); (-1, ch 'i', 17); (-2, ch 'c', 2275); (4, ch 'i', 0); (8, ch 'd', 701);
   (4, ch 'i', 23); (-1, ch 'i', 25); (2, ch 's', 21);
-  (4, ch 'i', 0x01020304); (-1, ch 'i', 0x0a0b0c0d) |]        (* type ids the tool does not know, every byte distinct *)
+  (4, ch 'i', 0x01020304); (-1, ch 'i', 0x0a0b0c0d);          (* type ids the tool does not know, every byte distinct *)
+  (* attalign differs from what the tool's (type id, length) fallback table would say: only pg_attribute knows *)
+  (8, ch 'i', 70000); (4, ch 's', 70001); (-1, ch 'd', 70002); (16, ch 'i', 70003); (2, ch 'c', 70004); (-1, ch 'd', 25); (4, ch 'c', 70005);
+  (4, ch 'i', 0xF1E2D3C4) |]                                  (* does not fit int32 *)
 (* attalign not one of c/s/i/d: the tool falls back on its type table, which agrees with pg_type for these *)
 let lays_noalign : lay array = [| (4, 0, 23); (8, ch 'x', 20); (-1, 0, 25); (2, 0, 21); (1, 255, 16); (4, ch 'I', 26) |]
 let lays_small : lay array = [| (1, ch 'c', 16); (2, ch 's', 21); (4, ch 'i', 23); (8, ch 'd', 20); (4, ch 'i', 26); (1, ch 'c', 18);
@@ -120,7 +123,9 @@ let rand_prof r : prof =
 let auto_hint h = h < 12
 (* the detection-relevant knobs for a layout/hint pair chosen by a stratum *)
 let with_layout (p : prof) ~v16 ~hint ~det = { p with v16; hint; det }
-let ok_det (p : prof) = if p.v16 && auto_hint p.hint then (match p.det with DetOk5 | DetExact5 -> p.det | _ -> DetOk5) else DetAny
+let ok_det (p : prof) = match p.det with
+  | DetOk5 | DetExact5 -> p.det
+  | _ -> if p.v16 && auto_hint p.hint then DetOk5 else DetAny
 
 (* ---------- names ---------- *)
 let db_names = [| "postgres"; "app"; "App"; "APP"; "shop_db"; "mytemplate"; "Template1"; "templat"; "TEMPLATE0"; "x"; "donn\xc3\xa9es";
